@@ -144,11 +144,12 @@ def key(r):
 
 def value(r, depth=2, sc=scalar):
     c = r.pct()
-    if depth <= 0 or c < 50:
+    if depth <= 0 or c < (50 if depth < 2 else 35):
         return sc(r)
+    n = 0 if r.pct() < 15 else r.between(1, 3)
     if c < 75:
-        return [value(r, depth - 1, sc) for _ in range(r.between(0, 3))]
-    return {key(r): value(r, depth - 1, sc) for _ in range(r.between(0, 3))}
+        return [value(r, depth - 1, sc) for _ in range(n)]
+    return {key(r): value(r, depth - 1, sc) for _ in range(n)}
 
 
 def list_doc(r, depth=3, sc=scalar):
@@ -405,15 +406,42 @@ def blind_part(r, mode="typed", cond_depth=1, labels=False):
     )
 
 
+def anchored_value_cond(r, child, mode, depth):
+    """A value condition that the given child satisfies in ~60% of draws (so that the
+    walk continues), combined with random trees."""
+    if r.pct() < 40:
+        return tree(r, ("value",), mode, depth, null_p=5)
+    c = r.pct()
+    if c < 35:
+        anchor = Leaf("value", "dtype", "equal_to", kwargs={"value": type(child)})
+    elif c < 55 and isinstance(child, (str, list, dict)):
+        anchor = Leaf("value", "length", r.choice(["equal_to", "less_than_or_equal_to"]), kwargs={"value": len(child)})
+    elif c < 70:
+        anchor = Leaf("value", None, "equal_to", kwargs={"value": child})
+    elif c < 85:
+        anchor = Leaf("value", None, "is_instance", args=(type(child),) if type(child) in TYPES else (dict, list))
+    else:
+        anchor = Leaf("value", None, "truthy" if child else "falsy")
+    k = r.pct()
+    if k < 50 or depth <= 0:
+        return anchor
+    other = tree(r, ("value",), mode, depth - 1, null_p=5)
+    if k < 75:
+        return Op("or", anchor, other) if r.coin() else Op("or", other, anchor)
+    return Op(r.choice(["and", "xor"]), anchor, other)
+
+
 def guided_path(r, doc_, max_len=4, miss=18, mode="typed", labels=False, prim_only=False,
                 want_str=False, min_len=0, cond_depth=2):
     """A path drawn by walking the document, so that selections are non-empty most of
     the time; with probability `miss` % per part a blind part is injected."""
     parts = []
     n = r.between(min_len, max_len)
-    for _ in range(n):
+    for part_i in range(n):
         frontier = [c for c, _ in model.ref_select(parts, doc_)] if parts else [doc_]
         conts = [x for x in frontier if isinstance(x, (dict, list)) and x]
+        if not conts and r.pct() < 75:
+            break
         if not conts or r.pct() < miss:
             parts.append(Prim(r.choice(PRIMS)) if prim_only else blind_part(r, mode, labels=labels))
             continue
@@ -421,6 +449,10 @@ def guided_path(r, doc_, max_len=4, miss=18, mode="typed", labels=False, prim_on
         items = model.items_of(node)
         ks = [k for k, _ in items]
         ks_pick = ks
+        if part_i < n - 1:
+            deeper = [k for k, v in items if isinstance(v, (list, dict)) and v]
+            if deeper and r.pct() < 80:
+                ks_pick = deeper
         if want_str:
             pref = [k for k, v in items if isinstance(v, str) or (isinstance(v, (list, dict)) and v)]
             if pref and r.pct() < 85:
@@ -430,13 +462,13 @@ def guided_path(r, doc_, max_len=4, miss=18, mode="typed", labels=False, prim_on
         c = r.pct()
         lab = r.choice(LABELS) if labels and r.pct() < 40 else None
         primable = isinstance(k, (str, int, float, bool))
-        if prim_only or (c < 40 and primable):
+        if prim_only or (c < 34 and primable):
             parts.append(Prim(k) if primable else Prim(r.choice(PRIMS)))
         elif c < 52:
             parts.append(Part("map" if is_map else "list", label=lab))
-        elif c < 60:
+        elif c < 62:
             parts.append(Part("mol", label=lab))
-        elif c < 72:
+        elif c < 74:
             if is_map:
                 ct = r.choice(["map", "mol"])
                 cnd = r.choice(["in_", "equal_to", "not_in"])
@@ -455,11 +487,11 @@ def guided_path(r, doc_, max_len=4, miss=18, mode="typed", labels=False, prim_on
                 parts.append(Part(ct, index=ic, label=lab))
         elif c < 86:
             ct = r.choice(["map" if is_map else "list", "mol"])
-            vc = tree(r, ("value",), mode, cond_depth, null_p=5)
+            vc = anchored_value_cond(r, node[k], mode, cond_depth)
             parts.append(Part(ct, value=vc, label=lab))
         else:
             ct = r.choice(["map" if is_map else "list", "mol"])
-            vc = tree(r, ("value",), mode, 1, null_p=5)
+            vc = anchored_value_cond(r, node[k], mode, 1)
             if ct == "mol":
                 parts.append(Part(ct, key=tree(r, ("key",), mode, 1, null_p=30),
                                   index=tree(r, ("index",), mode, 1, null_p=30), value=vc, label=lab))
